@@ -48,7 +48,7 @@ class ProbeRateConstant : public micm::RateConstant
   }
   double Calculate(const micm::Conditions& c, std::vector<double>::const_iterator p) const override
   {
-    double v = 1000000.0 * id_ + 1000.0 * c.temperature_ + 7.0 * c.pressure_;
+    double v = 1000000.0 * id_ + 1000.0 * c.temperature_ + 7.0 * c.pressure_ + 13.0 * c.air_density_;
     for (std::size_t i = 0; i < size_; ++i)
       v += (double)(i + 1) * p[i];
     return v;
@@ -108,18 +108,42 @@ static void ratec_case(Toks& tk, Out& out, std::size_t ncells)
     else
       procs.push_back(MK_PROCESS(micm::ArrheniusRateConstant({ .A_ = 3.0 + r })));
   }
+  // the solver object first holds a solver for another reaction list (which has handed out a State), then is
+  // move-assigned the solver for this one: nothing of the first mechanism may remain
+  std::vector<micm::Process> other_procs;
+  {
+    std::vector<micm::Species> reactants{ a, m };
+    std::vector<micm::Yield> products{ micm::Yields(b, 1) };
+    other_procs.push_back(MK_PROCESS(micm::ArrheniusRateConstant({ .A_ = 77.0 })));
+    other_procs.push_back(MK_PROCESS(micm::UserDefinedRateConstant({ .label_ = "other" })));
+  }
   auto solver = micm::CpuSolverBuilder<micm::RosenbrockSolverParameters, DM, SM>(
                     micm::RosenbrockSolverParameters::ThreeStageRosenbrockParameters())
                     .SetSystem(micm::System(micm::SystemParameters{ .gas_phase_ = gas }))
-                    .SetReactions(procs)
+                    .SetReactions(other_procs)
                     .SetNumberOfGridCells((int)ncells)
                     .Build();
+  {
+    auto other_state = solver.GetState();
+    solver.CalculateRateConstants(other_state);
+  }
+  solver = micm::CpuSolverBuilder<micm::RosenbrockSolverParameters, DM, SM>(
+               micm::RosenbrockSolverParameters::ThreeStageRosenbrockParameters())
+               .SetSystem(micm::System(micm::SystemParameters{ .gas_phase_ = gas }))
+               .SetReactions(procs)
+               .SetNumberOfGridCells((int)ncells)
+               .Build();
   auto state = solver.GetState();
+  // cells 2j and 2j+1 share temperature and pressure (those drawn for cell 2j) and differ in air density: the
+  // conditions of a cell are all three
+  for (std::size_t c = 0; c < ncells; ++c)
+    T[c] = T[c - c % 2], P[c] = P[c - c % 2];
+  auto rho = [](std::size_t c) { return 1.0 + (double)(c % 3); };
   for (std::size_t c = 0; c < ncells; ++c)
   {
     state.conditions_[c].temperature_ = (double)T[c];
     state.conditions_[c].pressure_ = (double)P[c];
-    state.conditions_[c].air_density_ = 1.0;
+    state.conditions_[c].air_density_ = rho(c);
   }
   if (by_label)
   {
@@ -151,7 +175,7 @@ static void ratec_case(Toks& tk, Out& out, std::size_t ncells)
       double v;
       if (ps[r].kind == 0)
       {
-        v = 1000000.0 * r + 1000.0 * T[c] + 7.0 * P[c];
+        v = 1000000.0 * r + 1000.0 * T[c] + 7.0 * P[c] + 13.0 * rho(c);
         for (int i = 0; i < ps[r].size; ++i)
           v += (double)(i + 1) * vals[c * nparams + off + i];
       }
